@@ -144,7 +144,9 @@ class PersistentVector(
         return self._inner[item]
 
     def __hash__(self):
-        return hash(self._inner)
+        # Hash like every other sequential type (see ISeq.__hash__) so that equal
+        # vectors, lists and seqs are interchangeable as map keys and set members
+        return hash(tuple(self._inner))
 
     def __iter__(self):
         yield from self._inner
